@@ -56,4 +56,30 @@ pub fn run(r: &mut Report) {
         r.case(id, json!({"step": "a threshold 1", "links": "4 valid authorised links with different products", "repetitions": crate::util::scale(40, 200)}),
                "one outcome", format!("{} distinct outcomes: {:?}", seen.len(), seen), seen.len() == 1);
     }
+
+    // links whose recorded `name` is another step's name (the verifier goes by the file a link is filed in): a MATCH .. FROM that
+    // other step must keep reading that step's own link, on every run
+    for (id, audit_records) in [("misnamed-link-of-another-step", "build"), ("all-links-record-one-name", "final"), ("honest-names", "audit")] {
+        use in_toto::models::{rule::Artifact, LinkMetadataBuilder};
+        let owner = key(1); let (kb, ka, kf) = (key(2), key(3), key(4));
+        let d = tmpdir();
+        let mk = |name: &str, prods: &[(&str, u8)]| LinkMetadataBuilder::new().name(name.to_string()).products(artifacts(prods)).build().unwrap();
+        let all_final = audit_records == "final";
+        write_link(d.path(), "build", kb.key_id(), &signed_link(&mk(if all_final { "final" } else { "build" }, &[("x", 1)]), &[&kb]));
+        write_link(d.path(), "audit", ka.key_id(), &signed_link(&mk(audit_records, &[("x", 2)]), &[&ka]));
+        let fin = LinkMetadataBuilder::new().name("final".to_string()).materials(artifacts(&[("x", 1)])).build().unwrap();
+        write_link(d.path(), "final", kf.key_id(), &signed_link(&fin, &[&kf]));
+        let rules = vec![ArtifactRule::Match { pattern: VirtualTargetPath::new("x".into()).unwrap(), in_src: None, with: Artifact::Products, in_dst: None, from: "build".into() },
+                         ArtifactRule::Disallow(VirtualTargetPath::new("*".into()).unwrap())];
+        let lay = signed_layout(&layout(vec![step("build", 1, &[&kb], allow_all(), allow_all()), step("audit", 1, &[&ka], allow_all(), allow_all()),
+                                             step("final", 1, &[&kf], rules, allow_all())], vec![], &[&kb, &ka, &kf], 30), &[&owner]);
+        let mut seen = BTreeSet::new();
+        let reps = crate::util::scale(40, 200);
+        for _ in 0..reps {
+            let res = no_panic(|| in_toto_verify(&lay, owner_keys(&[&owner]), d.path().to_str().unwrap(), None));
+            seen.insert(match &res { Ok(v) => if v.is_ok() { "Ok".to_string() } else { "Err".to_string() }, Err(p) => format!("panic: {}", p) });
+        }
+        r.case(id, json!({"build.link": "x=1", "audit.link": format!("records name {:?}, x=2", audit_records), "final": "MATCH x WITH PRODUCTS FROM build; DISALLOW *", "repetitions": reps}),
+               "Ok on every run (build's own link has the matching x)", format!("{:?}", seen), seen.len() == 1 && seen.contains("Ok"));
+    }
 }
